@@ -942,26 +942,25 @@ func (f *Field) ClearBit(rowID, colID uint64) (changed bool, err error) {
 	if len(f.viewMap) == 1 { // assuming no time views
 		return changed, nil
 	}
-	lastViewNameSize := 0
-	level := 0
-	skipAbove := maxInt
+	// The views come sorted parent first (2019, 201901, 20190102, 2020, ...). A bit
+	// that is absent from a view is absent from every finer view below it (their
+	// names extend the parent's name), so those can be skipped; every other view,
+	// in particular the next sibling or the next coarser view, must be visited.
+	skipPrefix := ""
 	for _, view := range f.allTimeViewsSortedByQuantum() {
-		if lastViewNameSize < len(view.name) {
-			level++
-		} else if lastViewNameSize > len(view.name) {
-			level--
+		if skipPrefix != "" && strings.HasPrefix(view.name, skipPrefix) {
+			continue
 		}
-		if level < skipAbove {
-			if changed, err = view.clearBit(rowID, colID); err != nil {
-				return changed, errors.Wrapf(err, "clearing on view %s", view.name)
-			}
-			if !changed {
-				skipAbove = level + 1
-			} else {
-				skipAbove = maxInt
-			}
+		skipPrefix = ""
+		cleared, err := view.clearBit(rowID, colID)
+		if err != nil {
+			return changed, errors.Wrapf(err, "clearing on view %s", view.name)
 		}
-		lastViewNameSize = len(view.name)
+		if cleared {
+			changed = true
+		} else {
+			skipPrefix = view.name
+		}
 	}
 
 	return changed, nil
